@@ -85,15 +85,15 @@ class FsIntrinsics(Intrinsics):
         o = z3.Const('FileComparison!' + name, ObjS)
         st.assume(cls_of(o) == CLS['FileComparison'])
         st.assume(eng.hread(st, 'FileComparison.name', o) == str_lit(name))
-        st.assume(z3.Select(eng.gread(st, 'alloc'), o))
+        st.assume(is_alloc(eng.gread(st, 'alloc'), o))
         return Sym(o, OBJ('FileComparison'))
 
     # ---- allocation ------------------------------------------------------------------------------
     def new_object(self, eng, st, cls):
         o = fresh('new_' + cls, ObjS)
         al = eng.gread(st, 'alloc')
-        st.assume(z3.Not(z3.Select(al, o)))
-        eng.gwrite(st, 'alloc', z3.Store(al, o, True))
+        st.assume(birth(o) == al)
+        eng.gwrite(st, 'alloc', al + 1)
         if cls in CLS:
             st.assume(cls_of(o) == CLS[cls])
         return Sym(o, OBJ(cls), fresh=True)
@@ -148,6 +148,10 @@ class FsIntrinsics(Intrinsics):
         return self.value_attr(eng, st, v, attr, node)
 
     def get_item_extra(self, eng, st, cont, key, node):
+        if isinstance(cont, Sym) and cont.ty.kind == 'opt' and cont.ty.args[0].kind == 'tup':
+            eng.oblige(st, cont.ty.sort().is_some(cont.t), 'type', 'not-None@L%d' % node.lineno,
+                       line=node.lineno)
+            cont = Sym(cont.ty.sort().val(cont.t), cont.ty.args[0])
         if isinstance(cont, Sym) and cont.ty.kind == 'tup' and isinstance(key, int):
             srt = cont.ty.sort()
             acc = getattr(srt, 't%d' % key)
@@ -709,8 +713,7 @@ class FsIntrinsics(Intrinsics):
             eng.gwrite(base, g, fresh('Gcb!' + g, eng.GHOST_SORTS[g]))
         al = eng.gread(base, 'alloc')
         al2 = fresh('Gcb!alloc', al.sort())
-        o = z3.Const('qx!al', ObjS)
-        base.assume(z3.ForAll([o], z3.Implies(al[o], al2[o])))
+        base.assume(al2 >= al)
         eng.gwrite(base, 'alloc', al2)
         s_ret = base.fork()
         r = fresh('cb_result', PyV)
